@@ -264,12 +264,19 @@ class Species(AtomCollection):
         """
         assert self._atoms is not None, "Can't set coordinates without atoms"
 
-        rmsd = calc_rmsd(
-            coords1=np.asarray(value).reshape((-1, 3)),  # N x 3
-            coords2=self.coordinates,
-        )
+        new_coords = np.asarray(value, dtype=float).reshape((-1, 3))  # N x 3
+        rmsd = calc_rmsd(coords1=new_coords, coords2=self.coordinates)
+
         if rmsd > 1e-8:
             self._clear_energies_gradient_hessian()
+
+        else:
+            # Energies are invariant to a rigid-body motion, but the gradient
+            # and Hessian are only invariant to a translation
+            shift = new_coords - np.asarray(self.coordinates)
+            if not np.allclose(shift, shift[0], rtol=0.0, atol=1e-8):
+                self.gradient = None
+                self.hessian = None
 
         self._atoms.coordinates = val.Coordinates(value)
         return
@@ -1072,14 +1079,26 @@ class Species(AtomCollection):
         # NOTE: Requires copy as the origin may be one of the coordinates
         origin = np.zeros(3) if origin is None else np.array(origin, copy=True)
 
+        rot_mat = get_rot_mat_euler(axis=axis, theta=theta)
+
         coords = self.coordinates
         coords -= origin
-        coords = np.dot(coords, get_rot_mat_euler(axis=axis, theta=theta).T)
+        coords = np.dot(coords, rot_mat.T)
         coords += origin
 
         # Set the new coordinates of each atom
         for atom, new_coord in zip(self.atoms, coords):
             atom.coord = new_coord
+
+        # The gradient and Hessian must rotate with the frame
+        if self._grad is not None:
+            self._grad[:] = np.dot(np.asarray(self._grad), rot_mat.T)
+
+        if self._hess is not None:
+            full_rot_mat = np.kron(np.eye(self.n_atoms), rot_mat)
+            self._hess[:] = np.linalg.multi_dot(
+                (full_rot_mat, np.asarray(self._hess), full_rot_mat.T)
+            )
 
         return None
 
